@@ -379,6 +379,20 @@ def client_reply(rng, q, real=None):
     if k < 44:      # well-formed answer with a hostile payload in the right encoding
         pl = hostile_payload(rng, q)
         return {"kind": "payload", "matched": True}, proto.build_data_answer(qid, labels, qt, pl, rng.choice("TTTSUVR"))
+    if k < 50:
+        # the question says one record type, the answer record another (the decoder picks its branch from the
+        # question and the caller its post-processing from the record): rdata without any NUL byte that fills the
+        # caller's buffer to the last byte, so that anything treating it as a string runs off the end
+        tq = rng.choice([qt, D.T_NULL, D.T_PRIVATE, D.T_TXT, D.T_CNAME, D.T_A, D.T_MX, D.T_SRV])
+        ta = rng.choice([D.T_MX, D.T_SRV, D.T_CNAME, D.T_TXT, D.T_NULL, D.T_A, D.T_PRIVATE])
+        n = rng.choice([4094, 4095, 4096, 4097, 5000, 2, 100, 20000])
+        fill = bytes([rng.choice(b"hHiIkKtTrRA\xff\x01")]) * n
+        if tq == D.T_TXT:
+            body = b"".join(bytes([min(255, len(fill) - i)]) + fill[i:i + 255] for i in range(0, len(fill), 255))
+        else:
+            body = fill
+        return {"kind": "xtype-%s-%s" % (D.TYPENAMES.get(tq, tq), D.TYPENAMES.get(ta, ta)), "matched": True}, \
+            _q(qid, 0x8400, labels, tq, 1) + _rr(ptr, ta, body)
     # structurally hostile answer sections, per type
     t = rng.choice([qt, qt, qt, D.T_NULL, D.T_TXT, D.T_CNAME, D.T_MX, D.T_SRV, D.T_A])
     head = lambda an: _q(qid, 0x8400, labels, t if rng.random() < 0.8 else qt, an)
